@@ -21,13 +21,14 @@ LEVEL_TEXT = ("The parser/compiler model is a total Lean function whose result t
               "to accept exactly the texts of the plain parser with the same AST (parseE_erase), to report an offset inside the text or at its end on an "
               "existing line whose text is the quoted line (syntaxError_offset_le, syntaxError_line_exists, compile_syntax_error_located) and never before a "
               "prefix of complete statements that is accepted on its own (syntaxError_after_accepted_prefix); line, column and quoted line of every "
-              "ParseError are compared exactly with the model. That no undocumented exception escapes is false on some inputs "
+              "ParseError are compared exactly with the model. Through the Markdown front end (C07d): mdCompile_documented_outcomes - for every document of the "
+              "sub-language D2 the model of compile_markdown returns a result or one of the three documented located errors, never anything else. That no undocumented exception escapes is false on some inputs "
               "(recorded findings); outside them it is checked by the sweep over arbitrary text and Markdown documents.")
 LEVEL_NOTE = ("Partial: the interpreter's recursion limit, wall-clock time and exceptions inside marko cannot be exhibited by a total Lean function; they are "
               "covered only by the oracle sweep (search). For the model it IS a theorem that compile returns a recipe or one of the three documented "
               "located errors for every input (compile_documented_outcomes, compile_no_internal, parse_never_zeroDivision) and that every reported "
               "offset lies inside the reported block's text (compile_error_in_source). Trusted: Lean kernel, peggie PEG semantics as exercised.")
-LEAN_MODULES = ["RecipeGrid.Props.C07", "RecipeGrid.Props.C07b", "RecipeGrid.Props.C07c"]
+LEAN_MODULES = ["RecipeGrid.Props.C07", "RecipeGrid.Props.C07b", "RecipeGrid.Props.C07c", "RecipeGrid.Props.C07d"]
 SOURCES = ["recipe_grid/parser/__init__.py", "recipe_grid/parser/grammar.py", "recipe_grid/parser/grammar.peg", "recipe_grid/parser/ast.py",
            "recipe_grid/compiler.py", "recipe_grid/markdown.py"]
 RULE = ("arbitrary text: token soups incl. Unicode, every kind of single-edit mutation of valid descriptions, prefixes and suffixes, nesting up to 30, texts up "
@@ -168,6 +169,10 @@ def exotic_break_class(doc):
                 return ":line-break-character-on-a-fence-line"
             if not line.strip():
                 return ":line-break-character-on-a-blank-line"
+    if norm and norm[-1] in EXOTIC_BREAKS:
+        # (c) the document ends in such a character (no final line feed): marko appends a line feed to the block's text, the error "unexpected end"
+        # is then placed on the line after the document's last
+        return ":line-break-character-at-the-end-of-the-document"
     return ""
 
 
@@ -246,7 +251,7 @@ def check_promptness():
 CORPUS = [["{}"], ["2 {}"], ["mix(flour, salt {})"], ["{} = boil(water)\nserve({})"], ["fry('')"], ["a {}{} b"], ["1" * 400 + " spam\nfry(1 spam)"], ["1" * 400 + " g spam\nfry(" + "1" * 397 + ".0 kg spam)"], ["1" * 4301 + " spam"],
           ["1/0 x"], ["2 1/0 kg x"], ["{1/0} x"], ["x {a 3/0 b}"], [" ".join(["'a'"] * 80)], ["f(" * 25 + "x" + ")" * 25], ["9" * 310 + " x"],
           [""], ["\n"], ["x ="], ["a = b = c"], ["1/ spam"], ["foo, foo = spam"], ["50% x"], ["x\nx = 1\n rest of y"]]
-MD_CORPUS = ["x {" + "9" * 309 + ".} y", "x {" + "1" * 4301 + "} y", "# T\n\n    " + "9" * 309 + ". g x\n", "```recipe\r\r\nx = 1 egg\nx = 2 eggs\n```\n", "```recipe\x0c\nx = 1 egg\nx = 2 eggs\n```\n", "    x = 1 egg\n\r\r\n    x = 2 eggs\n",
+MD_CORPUS = ["    f(x\x0c", "text\n\n    f(x\u2028", "x {" + "9" * 309 + ".} y", "x {" + "1" * 4301 + "} y", "# T\n\n    " + "9" * 309 + ". g x\n", "```recipe\r\r\nx = 1 egg\nx = 2 eggs\n```\n", "```recipe\x0c\nx = 1 egg\nx = 2 eggs\n```\n", "    x = 1 egg\n\r\r\n    x = 2 eggs\n",
              "  ```recipe\n  x = 1 egg\n \x0c\n  x = 2 eggs\n  ```\n", "*\rx\n", "{1/0}", "![{2} eggs](x.png)", "# T\n\n    1/0 x\n", "# Title for 2\n\n    2 eggs\n", "```recipe\nx = \n```\n", "text {3 1/2} more {x\\}}"]
 
 
